@@ -62,6 +62,11 @@ func main() {
 		Cleanup()
 		os.Exit(2)
 	}()
+	OnUnresponsive = func(e *Env, err error) {
+		c.Violate(Violation{Class: "proxy-unresponsive", Shape: "witness-connection",
+			Detail:  "the proxy process is alive but a connection that only ever sent PING got no answer for 15 s: the event loop no longer serves its clients (" + err.Error() + ")",
+			Witness: map[string]interface{}{"output_tail": e.P.OutputTail(1500)}})
+	}
 	// A tree that violates the property usually makes every further case wait for its
 	// watchdogs. Once violations have been collected the run is given a few more minutes
 	// (other classes may still show up) and is then ended with what it has: the verdict
